@@ -190,7 +190,7 @@ func checkCase(c Case, known func(string) bool) (f *evid.Failure, st stats) {
 				}
 				// collapse nesting paths to the innermost codec
 				if i := strings.LastIndex(lab, "/"); i >= 0 {
-					lab = "nested:" + lab[i+1:]
+					lab = lab[i+1:]
 				}
 			} else if sd == nil {
 				lab = "top." + topKind(&c.Type)
@@ -429,7 +429,7 @@ const valuesPerType = 8
 
 func TestMarshalTo(t *testing.T) {
 	o := genOpts()
-	evid.Check(t, "MarshalTo", 130, func(rt *rapid.T) {
+	evid.Check(t, "MarshalTo", 1000, func(rt *rapid.T) {
 		c := Case{Type: pgen.GenType(rt, o)}
 		topImpl := c.Type.Impl() != ""
 		for i := 0; i < valuesPerType; i++ {
